@@ -404,7 +404,7 @@ func fpFamilies() []fpFamily {
 	return []fpFamily{
 		{name: "dag-in-loop", quick: []int{6, 10, 14, 18, 22}, thor: []int{6, 10, 14, 18, 22, 26, 60, 120}, gen: genDagInLoop},
 		{name: "dag-chain-used-twice", quick: []int{6, 10, 14, 18, 22}, thor: []int{6, 10, 14, 18, 22, 26, 60, 120}, gen: genDagChain2},
-		{name: "dag-as-loop-bound", quick: []int{4, 8, 12, 16}, thor: []int{4, 8, 12, 16, 20}, gen: genDagLoopBound},
+		{name: "dag-as-loop-bound", quick: []int{4, 8, 12, 16, 22, 26}, thor: []int{4, 8, 12, 16, 20, 24, 28}, gen: genDagLoopBound},
 		{name: "const-dag-as-loop-step", quick: []int{8, 12, 16, 20, 24}, thor: []int{8, 12, 16, 20, 24, 32, 44}, gen: genConstDagStep},
 		{name: "const-squaring-as-loop-bound", quick: []int{8, 12, 16, 20, 24}, thor: []int{8, 12, 16, 20, 24, 40, 80}, gen: genConstSquaring},
 		{name: "nested-loops", quick: []int{15, 30, 60, 70, 130}, thor: []int{15, 30, 60, 70, 130, 260}, gen: genNested},
